@@ -67,6 +67,19 @@ func (r *Report) Nonconformance(sig, detail string, path []string) {
 	r.add("nonconformance", sig, detail, path)
 }
 
+// ViolationCount is the number of violations reported so far (a harness whose every case fails slowly cuts its run short).
+func (r *Report) ViolationCount() int {
+	r.mu.Lock()
+	defer r.mu.Unlock()
+	n := 0
+	for _, f := range r.findings {
+		if f.Kind == "violation" {
+			n += f.Count
+		}
+	}
+	return n
+}
+
 func (r *Report) Sample(v any) {
 	r.mu.Lock()
 	if len(r.Samples) < 6 {
